@@ -42,7 +42,11 @@ Replay(rec) ==
 
 Conformance(rec) ==
   LET r == Replay(rec) IN
-  IF r.at # 0 THEN r.at
+  \* buffer_size < max_workers (or 0) is outside the protocol: the code
+  \* refuses before anything is pulled; anything else does not conform
+  IF rec.buf < rec.w \/ rec.buf < 1 THEN (IF rec.end = "refused" THEN 0 ELSE 1)
+  ELSE IF rec.end = "refused" THEN 1
+  ELSE IF r.at # 0 THEN r.at
   ELSE IF rec.deadlock
        THEN (IF \E th \in ThreadsOf(r.fin) : Enabled(th, r.fin) THEN Len(rec.events) + 1 ELSE 0)
   ELSE IF r.fin.end # rec.end \/ r.fin.delivered # rec.delivered THEN Len(rec.events) + 1
